@@ -150,6 +150,7 @@ def dispatch (st : State) (line : String) : State × String :=
     if let some r := OpsTree.dispatch op ts then (st, r) else
     if let some r := OpsXml.dispatch op ts then (st, r) else
     if op == "retrieve" then (st, OpsMore.retrieveOp ts) else
+    if op == "gluetable" then (st, OpsMore.gluetableOp ts) else
     if let some r := OpsMore.dispatch op ts then (st, r) else
     match catOps op ts with
     | some r => (st, r)
